@@ -171,11 +171,10 @@ theorem simple_walk {X : RC} {gs0 res : GS} {n : Node} {st : Stmt} (hsimple : Si
     refine pc_exact_clean sr.at_.eq hreal hlo ?_
     intro p h1 h2
     have h0 : 0 < p := by have := hat.pos; omega
-    rw [agree_pb_iff lk.agree h0 h2]
-    rw [hcode] at h2 ⊢
-    rw [List.getElem?_append_right h1]
     intro hc
-    exact hclean _ (List.mem_of_getElem? hc) rfl
+    have hc2 := (agree_pb_iff lk.agree h0 h2).1 hc
+    rw [hcode, List.getElem?_append_right h1] at hc2
+    exact hclean _ (List.mem_of_getElem? hc2) rfl
   exact ⟨w', t', cw, Ex.exact (by omega) hw, hcode, hclean⟩
 
 theorem simple_site {X : RC} (gs res : GS) (t : Nat) (tok file : Bytes) (line : Int) (l r : Node) (st : Stmt)
